@@ -194,8 +194,9 @@ type c19Item struct {
 func c19Judge(stmts []string) (sig, detail string, skipped bool) {
 	ref := refsem.NewInterp()
 	s := impl.NewSession()
+	refused := 0
 	for i, src := range stmts {
-		pr := impl.Parse(src, impl.ParseFuel(len(src)))
+		pr := impl.ParseCached(src)
 		if pr.Err != "" || pr.Panic != "" || pr.FuelOut != "" {
 			return "harness:generated-program-does-not-parse", src + ": " + pr.Err + pr.Panic, false
 		}
@@ -207,8 +208,20 @@ func c19Judge(stmts []string) (sig, detail string, skipped bool) {
 			if rr.FuelOut || rr.Exit || len(rr.Dom) > 0 {
 				return "", "", true
 			}
-			ir := s.RunTree(t, 64*rr.Steps+20000)
+			// through the real processInput of the read-eval loop: the reports a user sees are produced on this path
+			ir := s.RunInput(t, 64*rr.Steps+20000)
 			where := fmt.Sprintf("statement %d `%s`", i, clipStr(src, 200))
+			if ir.CompileErr != "" {
+				if rr.Err == "" {
+					return "", "", true // a refused statement with an effect in the model: not a session this check can follow
+				}
+				refused++
+				_ = refused
+				continue // refused as too large (the site after-a-refused-oversized-statement); it fails in the model too, without effect
+			}
+			if strings.HasPrefix(src, "huge = [") {
+				return "harness:oversized-statement-was-not-refused", where + ": " + ir.Observed(), false
+			}
 			if ir.Panic != "" {
 				if strings.Contains(ir.PanicSite, "dumpStack") || strings.Contains(ir.PanicSite, "DumpStack") || strings.Contains(ir.PanicSite, "Abbrev") {
 					return "report-panics@" + ir.PanicSite, where + ": producing the report failed: " + ir.Panic, false
@@ -424,9 +437,10 @@ func c19Sites() []c19Site {
 			// a statement too large for the instruction format is refused between the definitions and the failing call
 			big := make([]string, 33000)
 			for i := range big {
-				big[i] = "1"
+				big[i] = "hv"
 			}
-			return withPre("fa = (p, q) -> "+f.Src, "fb = (p) -> fa(p, 2) + 1", "huge = ["+strings.Join(big, ", ")+"] + [u]", "fb("+f.P+")")
+			// (non-constant elements: a list of constants is one constant; the index error makes it fail in the model too, without effect)
+			return withPre("hv = 1", "fa = (p, q) -> "+f.Src, "fb = (p) -> fa(p, 2) + 1", "huge = ["+strings.Join(big, ", ")+"][40000]", "fb("+f.P+")")
 		}},
 		{"generator-loop-after-a-zip-in-the-same-statement", func(f c19Fail) []string {
 			return withPre("pv = "+f.P, "gen = (p, q) -> {\n  yield 1\n  "+f.Src+"\n  yield 2\n}", "{\n  for a, b <- fromto(0, 2), fromto(0, 3) t = a + b\n  for i <- gen(pv, 1) t = i\n}")
